@@ -420,6 +420,50 @@ Proof.
   constructor; intros; rewrite ?compare_string_lex in *; eauto.
 Qed.
 
+(* The comparator WITHOUT the integer fast path: every pair of numeric rank goes through
+   GetFloatValueIfPossible / compareFloat.  compare_values differs from it only when both
+   values are integer-typed (bridging lemmas below); the order-theoretic facts are proved
+   for this float path first. *)
+Definition compare_values_f (tol : Z) (a b : value) (asc : bool) (op : sop) : cmp :=
+  let ra := get_rank a op in
+  let rb := get_rank b op in
+  match ra, rb with
+  | ROther, ROther => EQUAL
+  | ROther, _ => GREATER
+  | _, ROther => LESS
+  | _, _ =>
+    if Nat.ltb (rank_n ra) (rank_n rb) then flip asc LESS
+    else if Nat.ltb (rank_n rb) (rank_n ra) then flip asc GREATER
+    else match ra with
+         | RNumeric =>
+           match num_of a, num_of b with
+           | None, _ => GREATER
+           | _, None => LESS
+           | Some x, Some y => flip asc (compare_float tol x y)
+           end
+         | RString =>
+           match str_of a, str_of b with
+           | None, _ => GREATER
+           | _, None => LESS
+           | Some x, Some y => flip asc (compare_string x y)
+           end
+         | ROther => flip asc LESS
+         end
+  end.
+
+Fixpoint less_keys_f (tol : Z) (eles : list sort_ele) (a b : list value) : bool :=
+  match eles, a, b with
+  | (asc, op) :: er, va :: ar, vb :: br =>
+    match compare_values_f tol va vb asc op with
+    | EQUAL => less_keys_f tol er ar br
+    | LESS => true
+    | GREATER => false
+    end
+  | _, _, _ => false
+  end.
+Definition less_f_real := less_keys_f tolerance.
+Definition less_f_exact := less_keys_f 0%Z.
+
 (* position class of a value under (asc, op): values of a lower class come first *)
 Definition vclass (asc : bool) (op : sop) (v : value) : nat :=
   match get_rank v op with
@@ -441,24 +485,24 @@ Definition inner (asc : bool) (op : sop) (a b : value) : cmp :=
                end
   end.
 
-Lemma compare_values_class asc op a b :
-  compare_values 0 a b asc op =
+Lemma compare_values_f_class asc op a b :
+  compare_values_f 0 a b asc op =
   if Nat.ltb (vclass asc op a) (vclass asc op b) then LESS
   else if Nat.ltb (vclass asc op b) (vclass asc op a) then GREATER
   else inner asc op a b.
 Proof.
-  destruct a as [x rx|[x|] sx|], b as [y ry|[y|] sy|], op, asc; reflexivity.
+  destruct a as [x rx|ua ba rx|[x|] sx|], b as [y ry|ub bb ry|[y|] sy|], op, asc; reflexivity.
 Qed.
 
 Lemma rank_num_of a op : get_rank a op = RNumeric -> exists x, num_of a = Some x.
-Proof. destruct a as [x rx|[x|] sx|], op; simpl; intros; try discriminate; eauto. Qed.
+Proof. destruct a as [x rx|ua ba rx|[x|] sx|], op; simpl; intros; try discriminate; eauto. Qed.
 Lemma rank_str_of a op : get_rank a op = RString -> exists x, str_of a = Some x.
-Proof. destruct a as [x rx|[x|] sx|], op; simpl; intros; try discriminate; eauto. Qed.
+Proof. destruct a as [x rx|ua ba rx|[x|] sx|], op; simpl; intros; try discriminate; eauto. Qed.
 
 Lemma vclass_rank asc op a b : vclass asc op a = vclass asc op b -> get_rank a op = get_rank b op.
 Proof. unfold vclass. destruct (get_rank a op), (get_rank b op), asc; simpl; congruence. Qed.
 
-Lemma ord3_values asc op : ord3 (fun a b => compare_values 0 a b asc op).
+Lemma ord3_values asc op : ord3 (fun a b => compare_values_f 0 a b asc op).
 Proof.
   pose proof (ord3_flip _ asc ord3_float) as [Rf Af Tf Nf].
   pose proof (ord3_flip _ asc ord3_string) as [Rs As Ts Ns].
@@ -469,11 +513,11 @@ Proof.
                                | RString => match str_of a, str_of b with Some x, Some y => flip asc (compare_string x y) | _, _ => EQUAL end
                                end) by reflexivity.
   constructor.
-  - intros a. rewrite compare_values_class. rewrite Nat.ltb_irrefl. unfold inner.
+  - intros a. rewrite compare_values_f_class. rewrite Nat.ltb_irrefl. unfold inner.
     destruct (get_rank a op) eqn:E; auto.
     + destruct (rank_num_of _ _ E) as [x ->]. apply Rf.
     + destruct (rank_str_of _ _ E) as [x ->]. apply Rs.
-  - intros a b. rewrite !compare_values_class.
+  - intros a b. rewrite !compare_values_f_class.
     destruct (Nat.ltb_spec (vclass asc op a) (vclass asc op b)), (Nat.ltb_spec (vclass asc op b) (vclass asc op a));
       simpl; try reflexivity; try lia.
     assert (Hc : vclass asc op a = vclass asc op b) by lia.
@@ -481,7 +525,7 @@ Proof.
     destruct (get_rank a op) eqn:E; auto.
     + symmetry in Hr. destruct (rank_num_of a op E) as [x ->]. destruct (rank_num_of b op Hr) as [y ->]. apply Af.
     + symmetry in Hr. destruct (rank_str_of a op E) as [x ->]. destruct (rank_str_of b op Hr) as [y ->]. apply As.
-  - intros a b d. rewrite !compare_values_class.
+  - intros a b d. rewrite !compare_values_f_class.
     destruct (Nat.ltb_spec (vclass asc op a) (vclass asc op b)), (Nat.ltb_spec (vclass asc op b) (vclass asc op a)),
       (Nat.ltb_spec (vclass asc op b) (vclass asc op d)), (Nat.ltb_spec (vclass asc op d) (vclass asc op b)),
       (Nat.ltb_spec (vclass asc op a) (vclass asc op d)), (Nat.ltb_spec (vclass asc op d) (vclass asc op a));
@@ -497,7 +541,7 @@ Proof.
     + symmetry in Hr1. rewrite Hr1 in Hr2. symmetry in Hr2.
       destruct (rank_str_of a op E) as [x ->]. destruct (rank_str_of b op Hr1) as [y ->].
       destruct (rank_str_of d op Hr2) as [z ->]. apply Ts.
-  - intros a b d. rewrite !compare_values_class.
+  - intros a b d. rewrite !compare_values_f_class.
     destruct (Nat.ltb_spec (vclass asc op a) (vclass asc op b)), (Nat.ltb_spec (vclass asc op b) (vclass asc op a)),
       (Nat.ltb_spec (vclass asc op b) (vclass asc op d)), (Nat.ltb_spec (vclass asc op d) (vclass asc op b)),
       (Nat.ltb_spec (vclass asc op a) (vclass asc op d)), (Nat.ltb_spec (vclass asc op d) (vclass asc op a));
@@ -543,18 +587,18 @@ End ORD3.
 
 (* multi-key comparison with exact numeric equality is a strict weak order on
    records that carry one value per sort element *)
-Theorem less_exact_swo eles :
-  swo_on (less_exact eles) (fun r => length r = length eles).
+Theorem less_f_exact_swo eles :
+  swo_on (less_f_exact eles) (fun r => length r = length eles).
 Proof.
-  unfold less_exact. repeat split.
+  unfold less_f_exact. repeat split.
   - induction eles as [|[asc op] er IH]; intros a Ha; destruct a as [|va ar]; simpl in *; try discriminate; auto.
     rewrite (o_refl _ (ord3_values asc op)). apply IH. lia.
   - induction eles as [|[asc op] er IH]; intros a b d Ha Hb Hd; destruct a as [|va ar], b as [|vb br], d as [|vd dr];
       simpl in *; try discriminate; auto.
     pose proof (ord3_values asc op) as O.
     intros H1 H2.
-    destruct (compare_values 0 va vb asc op) eqn:E1; try discriminate;
-    destruct (compare_values 0 vb vd asc op) eqn:E2; try discriminate.
+    destruct (compare_values_f 0 va vb asc op) eqn:E1; try discriminate;
+    destruct (compare_values_f 0 vb vd asc op) eqn:E2; try discriminate.
     + rewrite (o_eq_eq _ O _ _ _ E1 E2). apply (IH ar br dr); auto; lia.
     + rewrite (o_eq_lt _ O _ _ _ E1 E2). reflexivity.
     + rewrite (o_lt_eq _ O _ _ _ E1 E2). reflexivity.
@@ -562,9 +606,9 @@ Proof.
   - induction eles as [|[asc op] er IH]; intros a b d Ha Hb Hd; destruct a as [|va ar], b as [|vb br], d as [|vd dr];
       simpl in *; try discriminate; auto.
     pose proof (ord3_values asc op) as O.
-    intros H. destruct (compare_values 0 va vd asc op) eqn:E; try discriminate.
-    + destruct (compare_values 0 va vb asc op) eqn:E1; auto.
-      * assert (E2 : compare_values 0 vb vd asc op = EQUAL).
+    intros H. destruct (compare_values_f 0 va vd asc op) eqn:E; try discriminate.
+    + destruct (compare_values_f 0 va vb asc op) eqn:E1; auto.
+      * assert (E2 : compare_values_f 0 vb vd asc op = EQUAL).
         { eapply (o_eq_eq _ O); [apply (o_eq_sym _ O); exact E1|exact E]. }
         rewrite E2. apply (IH ar br dr); auto; lia.
       * apply (o_gt_lt _ O) in E1. rewrite (o_lt_eq _ O _ _ _ E1 E). auto.
@@ -580,22 +624,22 @@ Proof.
   destruct (Z.ltb_spec (Z.abs (x - y)) 100), (Z.ltb_spec (Z.abs (x - y)) 0); simpl; try reflexivity; lia.
 Qed.
 
-Lemma compare_values_sep a b asc op : sep2 a b = true ->
-  compare_values tolerance a b asc op = compare_values 0 a b asc op.
+Lemma compare_values_f_sep a b asc op : sep2 a b = true ->
+  compare_values_f tolerance a b asc op = compare_values_f 0 a b asc op.
 Proof.
   unfold sep2, tolerance.
-  destruct a as [x rx|[x|] sx|], b as [y ry|[y|] sy|], op, asc; try reflexivity;
-    cbv [num_of]; intros H; cbv [compare_values get_rank rank_n num_of str_of Nat.ltb Nat.leb flip];
+  destruct a as [x rx|ua ba rx|[x|] sx|], b as [y ry|ub bb ry|[y|] sy|], op, asc; try reflexivity;
+    cbv [num_of]; intros H; cbv [compare_values_f get_rank rank_n num_of str_of Nat.ltb Nat.leb flip];
     rewrite (compare_float_sep _ _ H); reflexivity.
 Qed.
 
-Lemma less_real_exact eles : forall a b, sep_keys a b = true ->
-  less_real eles a b = less_exact eles a b.
+Lemma less_f_real_exact eles : forall a b, sep_keys a b = true ->
+  less_f_real eles a b = less_f_exact eles a b.
 Proof.
-  unfold less_real, less_exact.
+  unfold less_f_real, less_f_exact.
   induction eles as [|[asc op] er IH]; intros a b H; destruct a as [|va ar], b as [|vb br]; simpl in *; auto.
-  apply andb_true_iff in H as [H1 H2]. rewrite (compare_values_sep _ _ _ _ H1).
-  destruct (compare_values 0 va vb asc op); auto.
+  apply andb_true_iff in H as [H1 H2]. rewrite (compare_values_f_sep _ _ _ _ H1).
+  destruct (compare_values_f 0 va vb asc op); auto.
 Qed.
 
 Lemma separated_pair U a b : separated U = true -> In a U -> In b U -> sep_keys a b = true.
@@ -606,28 +650,28 @@ Qed.
 
 (* the real comparator is a strict weak order on any set of records whose numeric
    sort keys are pairwise equal or at least 1e-4 apart *)
-Theorem less_swo_guarded eles U : separated U = true ->
-  swo_on (less_real eles) (fun r => In r U /\ length r = length eles).
+Theorem less_f_swo_guarded eles U : separated U = true ->
+  swo_on (less_f_real eles) (fun r => In r U /\ length r = length eles).
 Proof.
-  intros HU. destruct (less_exact_swo eles) as (Hi & Ht & Hn).
+  intros HU. destruct (less_f_exact_swo eles) as (Hi & Ht & Hn).
   repeat split.
-  - intros a [Ia La]. rewrite less_real_exact by (eapply separated_pair; eauto). auto.
+  - intros a [Ia La]. rewrite less_f_real_exact by (eapply separated_pair; eauto). auto.
   - intros a b d [Ia La] [Ib Lb] [Id Ld].
-    rewrite !less_real_exact by (eapply separated_pair; eauto). eauto.
+    rewrite !less_f_real_exact by (eapply separated_pair; eauto). eauto.
   - intros a b d [Ia La] [Ib Lb] [Id Ld].
-    rewrite !less_real_exact by (eapply separated_pair; eauto). eauto.
+    rewrite !less_f_real_exact by (eapply separated_pair; eauto). eauto.
 Qed.
 
 (* streaming top-k of the real sort, under the separation guard *)
-Theorem sort_topk_streaming_real_guarded eles limit batches :
+Theorem sort_topk_streaming_f_guarded eles limit batches :
   separated (concat batches) = true ->
   Forall (Forall (fun r => length r = length eles)) batches ->
-  process (less_real eles) limit batches =
-  firstn limit (sort_by (less_real eles) (concat batches)).
+  process (less_f_real eles) limit batches =
+  firstn limit (sort_by (less_f_real eles) (concat batches)).
 Proof.
   intros HU HL.
-  apply (sort_topk_streaming (less_real eles) (fun r => In r (concat batches) /\ length r = length eles)).
-  - apply less_swo_guarded. assumption.
+  apply (sort_topk_streaming (less_f_real eles) (fun r => In r (concat batches) /\ length r = length eles)).
+  - apply less_f_swo_guarded. assumption.
   - clear HU. rewrite Forall_forall in *. intros b Hb. rewrite Forall_forall. intros r Hr. split.
     + apply in_concat. eauto.
     + specialize (HL b Hb). rewrite Forall_forall in HL. auto.
@@ -775,6 +819,21 @@ Proof.
   - apply f64_nonneg_exact. lia.
 Qed.
 
+End INTKEYS.
+
+(* ------------------------------------------------------------------ *)
+(* compareValues with the exact integer path (compareInts) and how it relates to the   *)
+(* float path                                                                          *)
+(* ------------------------------------------------------------------ *)
+Section INTCMP.
+Local Open Scope Z_scope.
+
+Lemma f64_exact_below_2p53 n : Z.abs n <= 2 ^ 53 -> f64_exact n = true.
+Proof. intros H. unfold f64_exact. rewrite f64_of_int_exact by assumption. apply Z.eqb_refl. Qed.
+
+(* three-way comparison of two integers *)
+Definition cmp3 (x y : Z) : cmp := if x <? y then LESS else if y <? x then GREATER else EQUAL.
+
 Lemma int_of_bits_range b : (b < 2 ^ 64)%N ->
   0 <= int_of_bits true b < 2 ^ 64 /\ - 2 ^ 63 <= int_of_bits false b < 2 ^ 63 /\
   (int_of_bits true b - int_of_bits false b = 0 \/ int_of_bits true b - int_of_bits false b = 2 ^ 64).
@@ -783,128 +842,197 @@ Proof.
   destruct (N.ltb_spec b 9223372036854775808); lia.
 Qed.
 
-(* compareValues on two integer-typed values (any mix of SS_DT_SIGNED_NUM and
-   SS_DT_UNSIGNED_NUM, any 64-bit patterns), op num / auto / "": LESS and GREATER are never
-   against the exact integer order, EQUAL means the float64 images coincide *)
-Theorem int_keys_compare ua a ra ub b rb asc op : op <> OpStr ->
-  let x := int_of_bits ua a in
-  let y := int_of_bits ub b in
-  match compare_values tolerance (int_value ua a ra) (int_value ub b rb) asc op with
-  | LESS => if asc then x < y else y < x
-  | GREATER => if asc then y < x else x < y
-  | EQUAL => f64_of_int x = f64_of_int y
-  end.
+(* compareInts = the exact order of the integers, for every dtype mix and all 64-bit patterns *)
+Lemma compare_ints_exact ua a ub b : (a < 2 ^ 64)%N -> (b < 2 ^ 64)%N ->
+  compare_ints ua a ub b = cmp3 (int_of_bits ua a) (int_of_bits ub b).
 Proof.
-  intros Hop x y. unfold int_value. fold x y.
-  pose proof (f64_of_int_mono x y) as M1. pose proof (f64_of_int_mono y x) as M2.
-  assert (E : compare_values tolerance (VNum (f64_of_int x * 1000000) ra) (VNum (f64_of_int y * 1000000) rb) asc op
-              = flip asc (compare_float tolerance (f64_of_int x * 1000000) (f64_of_int y * 1000000))).
-  { destruct op; try congruence; reflexivity. }
-  rewrite E. unfold compare_float, tolerance.
-  destruct (Z.ltb_spec (Z.abs (f64_of_int x * 1000000 - f64_of_int y * 1000000)) 100);
-    destruct (Z.eqb_spec (f64_of_int x * 1000000) (f64_of_int y * 1000000)); simpl;
-    try (destruct asc; simpl; lia).
-  destruct (Z.ltb_spec (f64_of_int x * 1000000) (f64_of_int y * 1000000)); destruct asc; simpl; lia.
+  intros Ha Hb. unfold compare_ints, int_negative, cmp3, int_of_bits.
+  destruct ua, ub; simpl;
+    repeat match goal with
+    | |- context [N.leb ?x ?y] => destruct (N.leb_spec x y); simpl
+    | |- context [N.ltb ?x ?y] => destruct (N.ltb_spec x y); simpl
+    | |- context [Z.ltb ?x ?y] => destruct (Z.ltb_spec x y); simpl
+    end; try reflexivity; lia.
 Qed.
 
-(* guard: both integers survive the conversion (e.g. |n| <= 2^53): EQUAL exactly for equal integers,
-   so the comparator is the exact integer order *)
-Theorem int_keys_compare_exact_guarded ua a ra ub b rb asc op : op <> OpStr ->
-  f64_exact (int_of_bits ua a) = true -> f64_exact (int_of_bits ub b) = true ->
-  (compare_values tolerance (int_value ua a ra) (int_value ub b rb) asc op = EQUAL
-   <-> int_of_bits ua a = int_of_bits ub b).
+(* compareValues on two integer-typed values, op num / auto / "": the exact integer order in the
+   requested direction — no tolerance, no float64 *)
+Theorem int_keys_exact ua a ra ub b rb asc op tol : op <> OpStr -> (a < 2 ^ 64)%N -> (b < 2 ^ 64)%N ->
+  compare_values tol (VInt ua a ra) (VInt ub b rb) asc op
+  = flip asc (cmp3 (int_of_bits ua a) (int_of_bits ub b)).
 Proof.
-  intros Hop Ha Hb. unfold f64_exact in *. apply Z.eqb_eq in Ha, Hb.
-  pose proof (int_keys_compare ua a ra ub b rb asc op Hop) as H. cbv zeta in H.
-  split.
-  - intros E. rewrite E in H. congruence.
-  - intros E. destruct (compare_values tolerance (int_value ua a ra) (int_value ub b rb) asc op);
-      [reflexivity|destruct asc; lia|destruct asc; lia].
+  intros Hop Ha Hb. rewrite <- compare_ints_exact by assumption.
+  destruct op; try congruence; reflexivity.
 Qed.
 
-Lemma f64_exact_below_2p53 n : Z.abs n <= 2 ^ 53 -> f64_exact n = true.
-Proof. intros H. unfold f64_exact. rewrite f64_of_int_exact by assumption. apply Z.eqb_refl. Qed.
-
-(* FULL STATEMENT fails: 2^53 + 1 and 2^53 (and uint64 2^63 + 1 against int64 2^63 - 1) are EQUAL,
-   and the sort leaves 2^53 + 1 in front of 2^53 *)
-Theorem int_keys_float64_collapse_refuted :
-  (exists ua a ub b, int_of_bits ua a <> int_of_bits ub b /\
-     compare_values tolerance (int_value ua a []) (int_value ub b []) true OpNum = EQUAL) /\
-  compare_values tolerance (int_value true 9223372036854775809 []) (int_value false 9223372036854775807 []) true OpAuto = EQUAL /\
-  sort_by (less_real asc_num) [[int_value false 9007199254740993 []]; [int_value false 9007199254740992 []]]
-  = [[int_value false 9007199254740993 []]; [int_value false 9007199254740992 []]].
+(* every other pair takes the float path *)
+Lemma compare_values_f_eq tol a b asc op :
+  (forall ua ba ra ub bb rb, a = VInt ua ba ra -> b = VInt ub bb rb -> op = OpStr) ->
+  compare_values tol a b asc op = compare_values_f tol a b asc op.
 Proof.
-  split; [|split; vm_compute; reflexivity].
-  exists false, 9007199254740993%N, false, 9007199254740992%N. split; [vm_compute; discriminate|vm_compute; reflexivity].
+  intros H.
+  destruct a as [x rx|ua ba rx|[x|] sx|], b as [y ry|ub bb ry|[y|] sy|]; try reflexivity.
+  rewrite (H _ _ _ _ _ _ eq_refl eq_refl). reflexivity.
 Qed.
 
-(* integer keys are always "separated": their float64 images are equal or at least 1 apart, so the
-   1e-4 tolerance never matters for them *)
+Lemma cmp3_float tol x y : 0 <= tol <= 1000000 -> compare_float tol (x * 1000000) (y * 1000000) = cmp3 x y.
+Proof.
+  intros Ht. unfold compare_float, cmp3.
+  destruct (Z.ltb_spec (Z.abs (x * 1000000 - y * 1000000)) tol), (Z.eqb_spec (x * 1000000) (y * 1000000)),
+    (Z.ltb_spec x y), (Z.ltb_spec y x), (Z.ltb_spec (x * 1000000) (y * 1000000)); simpl; try reflexivity; lia.
+Qed.
+
+(* a value whose integer (if it is one) is a 64-bit pattern that float64 represents exactly *)
+Definition vexact (v : value) : Prop :=
+  match v with VInt u b _ => (b < 2 ^ 64)%N /\ f64_exact (int_of_bits u b) = true | _ => True end.
+
+Lemma compare_values_exact_f tol a b asc op : 0 <= tol <= 1000000 -> vexact a -> vexact b ->
+  compare_values tol a b asc op = compare_values_f tol a b asc op.
+Proof.
+  intros Ht Ha Hb.
+  destruct a as [x rx|ua ba rx|[x|] sx|], b as [y ry|ub bb ry|[y|] sy|]; try reflexivity.
+  destruct Ha as [Ha Ea], Hb as [Hb Eb]. unfold f64_exact in *. apply Z.eqb_eq in Ea, Eb.
+  destruct op; try reflexivity.
+  - rewrite int_keys_exact by (assumption || discriminate).
+    cbv [compare_values_f get_rank rank_n Nat.ltb Nat.leb num_of]. rewrite Ea, Eb, cmp3_float by assumption. reflexivity.
+  - rewrite int_keys_exact by (assumption || discriminate).
+    cbv [compare_values_f get_rank rank_n Nat.ltb Nat.leb num_of]. rewrite Ea, Eb, cmp3_float by assumption. reflexivity.
+Qed.
+
+Lemma less_keys_exact_f tol eles : 0 <= tol <= 1000000 -> forall a b, Forall vexact a -> Forall vexact b ->
+  less_keys tol eles a b = less_keys_f tol eles a b.
+Proof.
+  intros Ht. induction eles as [|[asc op] er IH]; intros a b Ha Hb; destruct a as [|va ar], b as [|vb br]; simpl; auto.
+  inversion Ha; inversion Hb; subst. rewrite compare_values_exact_f by assumption.
+  destruct (compare_values_f tol va vb asc op); auto.
+Qed.
+
+(* a strict weak order pulls back along any map that preserves the comparison *)
+Lemma swo_pullback {A B} (less : A -> A -> bool) (less' : B -> B -> bool) (g : A -> B) (P : A -> Prop) (P' : B -> Prop) :
+  swo_on less' P' -> (forall a, P a -> P' (g a)) ->
+  (forall a b, P a -> P b -> less a b = less' (g a) (g b)) -> swo_on less P.
+Proof.
+  intros (Hi & Ht & Hn) HP E. repeat split.
+  - intros a Pa. rewrite E by assumption. auto.
+  - intros a b c Pa Pb Pc. rewrite !E by assumption. eauto.
+  - intros a b c Pa Pb Pc. rewrite !E by assumption. eauto.
+Qed.
+
+(* multi-key comparison with exact numeric equality is a strict weak order on records whose
+   integers are float64-exact … *)
+Theorem less_exact_swo eles :
+  swo_on (less_exact eles) (fun r => length r = length eles /\ Forall vexact r).
+Proof.
+  apply (swo_pullback _ (less_f_exact eles) (fun r => r) _ (fun r => length r = length eles)).
+  - apply less_f_exact_swo.
+  - intros a [H _]. exact H.
+  - intros a b [_ Ha] [_ Hb]. apply less_keys_exact_f; [lia|assumption|assumption].
+Qed.
+
+(* … and the real comparator on such records whose numeric keys are pairwise equal or >= 1e-4 apart *)
+Theorem less_swo_guarded eles U : separated U = true -> Forall (Forall vexact) U ->
+  swo_on (less_real eles) (fun r => In r U /\ length r = length eles).
+Proof.
+  intros HS HE.
+  apply (swo_pullback _ (less_f_real eles) (fun r => r) _ (fun r => In r U /\ length r = length eles)).
+  - apply less_f_swo_guarded. assumption.
+  - auto.
+  - rewrite Forall_forall in HE. intros a b [Ia _] [Ib _]. apply less_keys_exact_f; [unfold tolerance; lia|auto|auto].
+Qed.
+
+Theorem sort_topk_streaming_real_guarded eles limit batches :
+  separated (concat batches) = true -> Forall (Forall (Forall vexact)) batches ->
+  Forall (Forall (fun r => length r = length eles)) batches ->
+  process (less_real eles) limit batches =
+  firstn limit (sort_by (less_real eles) (concat batches)).
+Proof.
+  intros HU HE HL.
+  apply (sort_topk_streaming (less_real eles) (fun r => In r (concat batches) /\ length r = length eles)).
+  - apply less_swo_guarded; [assumption|]. apply Forall_concat. assumption.
+  - clear HU HE. rewrite Forall_forall in *. intros b Hb. rewrite Forall_forall. intros r Hr. split.
+    + apply in_concat. eauto.
+    + specialize (HL b Hb). rewrite Forall_forall in HL. auto.
+Qed.
+
+(* ---- records whose numeric sort keys are all integer-typed (any 64-bit patterns, mixed dtypes,
+   next to strings and missing values): no guard on the values ---- *)
 Definition int_or_nonnum (v : value) : Prop :=
-  (exists u b r, v = int_value u b r) \/ num_of v = None.
+  match v with VInt _ b _ => (b < 2 ^ 64)%N | VNum _ _ => False | VStr (Some _) _ => False | _ => True end.
 
-Lemma int_sep2 a b : int_or_nonnum a -> int_or_nonnum b -> sep2 a b = true.
+(* the exact value of an integer as a float-path number *)
+Definition flat (v : value) : value :=
+  match v with VInt u b r => VNum (int_of_bits u b * 1000000) r | _ => v end.
+
+Lemma compare_values_flat tol a b asc op : 0 <= tol <= 1000000 -> int_or_nonnum a -> int_or_nonnum b ->
+  compare_values tol a b asc op = compare_values_f 0 (flat a) (flat b) asc op.
 Proof.
-  unfold sep2. intros [(ua & ba & ra & ->)|Ha] [(ub & bb & rb & ->)|Hb];
-    try (rewrite Ha; reflexivity); try (rewrite Hb; destruct (num_of _); reflexivity).
-  simpl. unfold tolerance. lia.
+  intros Ht Ha Hb.
+  destruct a as [x rx|ua ba rx|[x|] sx|], b as [y ry|ub bb ry|[y|] sy|]; simpl in Ha, Hb; try contradiction;
+    try (destruct op, asc; reflexivity).
+  destruct op; try reflexivity.
+  - rewrite int_keys_exact by (assumption || discriminate).
+    cbv [flat compare_values_f get_rank rank_n Nat.ltb Nat.leb num_of]. rewrite cmp3_float by lia. reflexivity.
+  - rewrite int_keys_exact by (assumption || discriminate).
+    cbv [flat compare_values_f get_rank rank_n Nat.ltb Nat.leb num_of]. rewrite cmp3_float by lia. reflexivity.
 Qed.
 
-Lemma int_sep_keys : forall a b, Forall int_or_nonnum a -> Forall int_or_nonnum b -> sep_keys a b = true.
+Lemma less_keys_flat tol eles : 0 <= tol <= 1000000 -> forall a b, Forall int_or_nonnum a -> Forall int_or_nonnum b ->
+  less_keys tol eles a b = less_f_exact eles (map flat a) (map flat b).
 Proof.
-  induction a as [|va ar IH]; intros [|vb br] Ha Hb; simpl; auto.
-  inversion Ha; inversion Hb; subst. rewrite int_sep2 by assumption. simpl. auto.
+  intros Ht. unfold less_f_exact.
+  induction eles as [|[asc op] er IH]; intros a b Ha Hb; destruct a as [|va ar], b as [|vb br]; simpl; auto.
+  inversion Ha; inversion Hb; subst. rewrite (compare_values_flat tol) by assumption.
+  destruct (compare_values_f 0 (flat va) (flat vb) asc op); auto.
 Qed.
 
-Theorem int_records_separated U : Forall (Forall int_or_nonnum) U -> separated U = true.
+(* the real comparator is a strict weak order on such records, whatever the integers are *)
+Theorem less_swo_int_keys eles :
+  swo_on (less_real eles) (fun r => length r = length eles /\ Forall int_or_nonnum r).
 Proof.
-  intros H. unfold separated. rewrite Forall_forall in H.
-  apply forallb_forall. intros a Ha. apply forallb_forall. intros b Hb.
-  apply int_sep_keys; auto.
+  apply (swo_pullback _ (less_f_exact eles) (map flat) _ (fun r => length r = length eles)).
+  - apply less_f_exact_swo.
+  - intros a [H _]. rewrite map_length. exact H.
+  - intros a b [_ Ha] [_ Hb]. apply less_keys_flat; [unfold tolerance; lia|assumption|assumption].
 Qed.
 
-(* so for records whose numeric sort keys are all integer-typed (whole int64 and uint64 range,
-   mixed dtypes, with strings and missing values) the real comparator is a strict weak order and
-   the streaming sort returns the first `limit` of the sorted whole — no guard on the values *)
 Theorem sort_topk_streaming_int_keys eles limit batches :
   Forall (Forall (Forall int_or_nonnum)) batches ->
   Forall (Forall (fun r => length r = length eles)) batches ->
   process (less_real eles) limit batches =
   firstn limit (sort_by (less_real eles) (concat batches)).
 Proof.
-  intros HI HL. apply sort_topk_streaming_real_guarded; [|assumption].
-  apply int_records_separated. apply Forall_concat. assumption.
+  intros HI HL.
+  apply (sort_topk_streaming (less_real eles) (fun r => length r = length eles /\ Forall int_or_nonnum r)).
+  - apply less_swo_int_keys.
+  - rewrite Forall_forall in *. intros b Hb. specialize (HI b Hb). specialize (HL b Hb).
+    rewrite Forall_forall in *. intros r Hr. split; auto.
 Qed.
 
+(* ---- one integer key ---- *)
 (* a record with ONE integer-typed sort key: (dtype, 64 bits of CVal, string form) *)
 Definition ikey := (bool * N * list N)%type.
-Definition irec (k : ikey) : list value := [int_value (fst (fst k)) (snd (fst k)) (snd k)].
+Definition irec (k : ikey) : list value := [VInt (fst (fst k)) (snd (fst k)) (snd k)].
 Definition ival (k : ikey) : Z := int_of_bits (fst (fst k)) (snd (fst k)).
+Definition ibits64 (k : ikey) : Prop := (snd (fst k) < 2 ^ 64)%N.
 Definition int_less (asc : bool) (op : sop) (a b : ikey) : bool := less_real [(asc, op)] (irec a) (irec b).
 Definition int_ordered (asc : bool) (a b : ikey) : Prop := if asc then ival a <= ival b else ival b <= ival a.
 
-Lemma int_less_swo asc op : swo_on (int_less asc op) (fun _ => True).
+Lemma int_less_swo asc op : swo_on (int_less asc op) ibits64.
 Proof.
-  assert (E : forall a b, int_less asc op a b = less_exact [(asc, op)] (irec a) (irec b)).
-  { intros a b. unfold int_less. apply less_real_exact. unfold irec. apply int_sep_keys;
-      (apply Forall_cons; [left; repeat eexists|apply Forall_nil]). }
-  destruct (less_exact_swo [(asc, op)]) as (Hi & Ht & Hn).
-  repeat split.
-  - intros a _. rewrite E. apply Hi. reflexivity.
-  - intros a b c _ _ _. rewrite !E. apply Ht; reflexivity.
-  - intros a b c _ _ _. rewrite !E. apply Hn; reflexivity.
+  apply (swo_pullback _ (less_real [(asc, op)]) irec _ (fun r => length r = 1%nat /\ Forall int_or_nonnum r)).
+  - apply (less_swo_int_keys [(asc, op)]).
+  - intros [[u b] r] H. split; [reflexivity|]. repeat constructor. exact H.
+  - reflexivity.
 Qed.
 
-Lemma int_less_false_ordered asc op a b : op <> OpStr ->
-  f64_exact (ival a) = true -> f64_exact (ival b) = true ->
+Lemma int_less_false_ordered asc op a b : op <> OpStr -> ibits64 a -> ibits64 b ->
   int_less asc op b a = false -> int_ordered asc a b.
 Proof.
-  intros Hop Ea Eb H. unfold int_less, less_real, irec in H. simpl in H.
-  destruct b as [[ub bb] rb], a as [[ua ba] ra]. unfold ival, int_ordered in *. simpl in *.
-  pose proof (int_keys_compare ub bb rb ua ba ra asc op Hop) as C. cbv zeta in C.
-  unfold f64_exact in *. apply Z.eqb_eq in Ea, Eb.
-  destruct (compare_values tolerance (int_value ub bb rb) (int_value ua ba ra) asc op);
-    try discriminate; destruct asc; unfold ival; simpl; lia.
+  intros Hop Ha Hb H. destruct b as [[ub bb] rb], a as [[ua ba] ra].
+  unfold int_less, less_real, irec, ibits64, int_ordered, ival in *. simpl in *.
+  rewrite int_keys_exact in H by assumption. unfold cmp3 in H.
+  destruct (Z.ltb_spec (int_of_bits ub bb) (int_of_bits ua ba)), (Z.ltb_spec (int_of_bits ua ba) (int_of_bits ub bb)),
+    asc; simpl in H; try discriminate; lia.
 Qed.
 
 Lemma Forall_firstn' {A} (P : A -> Prop) k : forall l, Forall P l -> Forall P (firstn k l).
@@ -920,34 +1048,41 @@ Proof.
   rewrite Forall_forall in *. intros y Hy. auto.
 Qed.
 
-(* `sort [limit] [+|-] num(n)/auto(n)/n` over an integer column whose values survive the float64
-   conversion (|n| <= 2^53, or any m * 2^k with |m| < 2^53 — both dtypes, the whole 64-bit range):
-   for ANY batching the result is the first `limit` of the sorted whole and no pair of result rows
+(* `sort [limit] [+|-] num(n)/auto(n)/n` over an integer column — both dtypes, ALL 64-bit patterns:
+   for any batching the result is the first `limit` of the sorted whole and no pair of result rows
    is out of exact integer order *)
-Theorem sort_int_key_exact_guarded asc op limit (batches : list (list ikey)) : op <> OpStr ->
-  Forall (Forall (fun k => f64_exact (ival k) = true)) batches ->
+Theorem sort_int_key_exact asc op limit (batches : list (list ikey)) : op <> OpStr ->
+  Forall (Forall ibits64) batches ->
   process (int_less asc op) limit batches = firstn limit (sort_by (int_less asc op) (concat batches)) /\
   StronglySorted (int_ordered asc) (process (int_less asc op) limit batches).
 Proof.
-  intros Hop HE.
-  assert (HT : Forall (Forall (fun _ : ikey => True)) batches).
-  { apply Forall_forall. intros b _. apply Forall_forall. auto. }
-  pose proof (sort_topk_streaming (int_less asc op) (fun _ => True) (int_less_swo asc op) limit batches HT) as ES.
+  intros Hop HB.
+  pose proof (sort_topk_streaming (int_less asc op) ibits64 (int_less_swo asc op) limit batches HB) as ES.
   split; [exact ES|].
-  apply (StronglySorted_weaken (fun a b => int_less asc op b a = false) _ (fun k => f64_exact (ival k) = true)).
+  apply (StronglySorted_weaken (fun a b => int_less asc op b a = false) _ ibits64).
   - intros a b Pa Pb H. eapply int_less_false_ordered; eauto.
-  - rewrite ES. apply Forall_firstn'.
-    apply (Forall_sort (int_less asc op) (fun k => f64_exact (ival k) = true)).
+  - rewrite ES. apply Forall_firstn'. apply (Forall_sort (int_less asc op) ibits64).
     apply Forall_concat. assumption.
-  - apply (process_sorted (int_less asc op) (fun _ => True) (int_less_swo asc op)). assumption.
+  - apply (process_sorted (int_less asc op) ibits64 (int_less_swo asc op)). assumption.
 Qed.
-End INTKEYS.
 
-(* non-vacuity of the guard: small values of both dtypes, 2^53, MaxInt64's exact neighbour
-   2^63 - 1024, uint64 2^63 and 2^64 - 2048, MinInt64 *)
-Example f64_exact_example :
-  forallb (fun k => f64_exact (ival k))
-    [(false, 5%N, []); (true, 7%N, []); (false, 18446744073709551613%N, []); (true, 9007199254740992%N, []);
-     (false, 9223372036854774784%N, []); (true, 9223372036854775808%N, []);
-     (true, 18446744073709549568%N, []); (false, 9223372036854775808%N, [])] = true.
-Proof. vm_compute. reflexivity. Qed.
+(* ---- what remains of the float64 collapse: an integer against a float / numeric string ---- *)
+(* FULL STATEMENT (fails): less_real is a strict weak order on all records with separated keys.
+   An integer above 2^53 still goes through float64 when the other value is not integer-typed:
+   int 2^53+1 ~ float 2^53 ~ int 2^53, but int 2^53 < int 2^53+1 *)
+Theorem int_float_mix_not_transitive_refuted : exists a f b,
+  separated [a; f; b] = true /\
+  less_real asc_num a f = false /\ less_real asc_num f a = false /\
+  less_real asc_num f b = false /\ less_real asc_num b f = false /\
+  less_real asc_num b a = true.
+Proof.
+  exists [VInt false 9007199254740993 []], [VNum 9007199254740992000000 []], [VInt false 9007199254740992 []].
+  vm_compute. repeat split.
+Qed.
+
+Example vexact_example :
+  Forall vexact [VInt false 5 []; VInt true 7 []; VInt false 18446744073709551613 []; VInt true 9007199254740992 [];
+     VInt false 9223372036854774784 []; VInt true 9223372036854775808 []; VInt true 18446744073709549568 [];
+     VInt false 9223372036854775808 []; VNum 1500000 []; VStr None []; VNull].
+Proof. repeat constructor; vm_compute; reflexivity. Qed.
+End INTCMP.
